@@ -130,6 +130,12 @@ static size_t find_earliest_deadline(reproc_event_source *sources,
       return i;
     }
 
+    if (current == REPROC_INFINITE) {
+      // No deadline. `REPROC_INFINITE` (-1) must not take part in the
+      // comparison below or it would always be considered the earliest.
+      continue;
+    }
+
     if (min == REPROC_INFINITE || current < min) {
       earliest = i;
       min = current;
